@@ -621,7 +621,7 @@ Proof. intros. apply init_minv. Qed.
        (also with any other stored workflow the result is coupled to: reach_certified_state, used where
        model/Graph.v lags behind the code, see proofs/SchedGraphMachine.v),
      - a new director run with other targets: Scheduler.initialize + Workflow.reconcile_targets (reach_targets;
-       FlagInv proved: C11_target_change_keeps_flag_invariant; hypotheses LabelsUnique / OutInv on the snapshot),
+       FlagInv proved: C11_target_change_keeps_flag_invariant, whose hypotheses follow from the invariant),
      - the metadata updates of pop_next_job.
      - finalize.revert_optional_steps between two phases (FlagInv proved for it from any state:
        C11_revert_optional_keeps_flag_invariant; the stored workflow its result is coupled to is certified).
